@@ -176,6 +176,7 @@ def run(ctx, eng):
            not bad, '; '.join(sorted(set(bad))) or 'ok', node=f3.node)
     check_coh_frame_size(ctx, eng)
     check_output_slicing(ctx, eng)
+    check_incomplete_frame(ctx, eng)
     ctx.assume('equality of event lists under all chunkings as such is not '
                'decided; it rests on "the parser state is a function of the '
                'bytes so far", which the clauses establish structurally')
@@ -247,3 +248,42 @@ def check_output_slicing(ctx, eng):
     ctx.assume('equality of event lists under all chunkings as such is not '
                'decided; it rests on "the parser state is a function of the '
                'bytes so far", which the clauses establish structurally')
+
+
+def check_incomplete_frame(ctx, eng):
+    """Once __next__ has found that the bytes of the next frame are not all
+    there, it may only stop (StopIteration): any other decision taken in that
+    branch is taken on some chunkings and not on others - a frame that
+    arrives whole never passes through it - so which error a stream ends in
+    would depend on how it was cut.  (Checks made BEFORE the completeness
+    test run for both alike.)"""
+    m = eng.m
+    fi = m.func(FB + '__next__')
+    fb = frozenset(q for q, f in m.funcs.items()
+                   if f.cls == 'frame_buffer.FrameBuffer' and
+                   f.name not in ('__next__', '__init__', '__iter__'))
+    I = eng.interp(fb, depth=2)
+    paths = I.run(fi)
+    guards = set()
+    for p in paths:
+        r = cm.explicit_raise(p)
+        if r is not None and p.exc['names'] == {'StopIteration'}:
+            before = [e for e in p.events[:p.index(r)] if e.kind == 'assume']
+            if before:
+                guards.add(cm.show0(before[-1].cond))
+    ctx.require(len(guards) >= 2, 'the incomplete-frame exits of '
+                'FrameBuffer.__next__ were not found')
+    bad = []
+    for p in paths:
+        if p.exit != 'raise' or p.exc['names'] == {'StopIteration'}:
+            continue
+        idx = [i for i, e in enumerate(p.events) if e.kind == 'assume' and
+               cm.show0(e.cond) in guards]
+        if idx:
+            bad.append('%s is raised after the frame was found incomplete '
+                       '(%s)' % ('/'.join(sorted(p.exc['names'])),
+                                 cm.show0(p.events[idx[0]].cond)))
+    ctx.ob('ORD.incomplete', fi.qual, 'an incomplete frame only waits',
+           not bad, '; '.join(sorted(set(bad))) or 'the %d incomplete-frame '
+           'branches can only raise StopIteration' % len(guards),
+           node=fi.node)
